@@ -150,6 +150,12 @@ def spill_rules(repo):
     return out
 
 
+def _conj(t):
+    if isinstance(t, ast.BoolOp) and isinstance(t.op, ast.And):
+        return [c for v in t.values for c in _conj(v)]
+    return [t]
+
+
 def signal_window_rules(repo):
     fi = repo.func(M + "._extract_and_filter_chrom")
     out = []
@@ -197,6 +203,32 @@ def signal_window_rules(repo):
         out.append(violation("SIGNAL", fi, role, "tiles ABOVE the threshold are kept", fi.node))
     else:
         out.append(unrecognised("SIGNAL", fi, role, str([x for x in src if "values" in x])[:200]))
+    # the filter is switched on by the bigwig alone
+    role = "the signal filter runs whenever a bigwig is given (its only switch is `bigwig is not None`; a threshold of 0 is a legal value)"
+    pm_ = parent_map(fi.node)
+    flt = [x for x in walk_no_nested(fi.node) if isinstance(x, ast.Assign) and unparse(x.targets[0]) == "idxs" and "signal_threshold" in unparse(x.value)]
+    if len(flt) != 1:
+        out.append(unrecognised("SIGNAL", fi, role, "filter statement not found"))
+    else:
+        conj, q = [], pm_.get(flt[0])
+        while q is not None and q is not fi.node:
+            if isinstance(q, ast.If):
+                inbody = any(flt[0] is x for b in q.body for x in ast.walk(b))
+                conj += [(c, inbody) for c in _conj(q.test)]
+            elif isinstance(q, (ast.For, ast.While, ast.Try)):
+                conj.append((q, True))
+            q = pm_.get(q)
+        other = [(c, b) for c, b in conj if not (b and not isinstance(c, ast.stmt) and unparse(c) in ("bigwig is not None", "not bigwig is None", "not (bigwig is None)"))]
+        tr = [c for c, b in other if b and isinstance(c, ast.Name) and c.id in fi.params]
+        if not conj:
+            out.append(unrecognised("SIGNAL", fi, role, "filter is unconditional (bigwig=None would fail)", flt[0]))
+        elif tr:
+            out.append(violation("SIGNAL", fi, role, "the filter is additionally switched by the truth value of `%s`: a threshold of 0 (robust minimum 0, or "
+                                 "signal_beta = 0) silently disables it and tiles with arbitrary signal are returned" % tr[0].id, flt[0]))
+        elif other:
+            out.append(unrecognised("SIGNAL", fi, role, "additional conditions around the filter: %s" % [unparse(c)[:50] for c, b in other], flt[0]))
+        else:
+            out.append(holds("SIGNAL", fi, role, "if bigwig is not None: ... %s" % unparse(flt[0]), flt[0]))
     role = "tiles with too many N are dropped (n_perc <= max_n_perc)"
     ok = "idxs = n_perc <= max_n_perc" in src
     if ok:
